@@ -3,16 +3,18 @@ import json
 
 from harness.core import pool, tb
 
-PROOF_MODULE = ["OdeVerif.Proofs.C05", "OdeVerif.Proofs.RefineFromFunction"]
-GENERATED = ['Constants', 'PyFromFunction']
+PROOF_MODULE = ["OdeVerif.Proofs.C05", "OdeVerif.Proofs.RefineFromFunction", "OdeVerif.Proofs.RefineComponents"]
+GENERATED = ['Constants', 'PyFromFunction', "PyComponents"]
 THEOREMS = ["OdeVerif.C05.order_le_max", "OdeVerif.C05.defaults_documented", "OdeVerif.C05.accept_verified", "OdeVerif.C05.accept_minimal",
             "OdeVerif.C05.reject_means_unverified", "OdeVerif.C05.companion_flow_exact", "OdeVerif.C05.steps_compose", "OdeVerif.C05.function_reproduced",
-            "OdeVerif.Refine.fromFunction_refines", "OdeVerif.Refine.fromFunction_refines_default"]
+            "OdeVerif.Refine.fromFunction_refines", "OdeVerif.Refine.fromFunction_refines_default",
+            "OdeVerif.Refine.connectedComponentIndices_refines", "OdeVerif.Refine.mirror_spec"]
 LEVEL = "proof"
 
 # (definition, minimal ODE order or None if outside the supported class / above the maximum, cost class)
 FAMILY = [
     ("exp(-t/tau)", 1, "q"), ("2*exp(-3*t)", 1, "q"), ("a*exp(-t/tau_s)", 1, "q"), ("e**(-t*b)", 1, "q"),
+    ("t*exp(-t)", 2, "q"), ("sin(t)", 2, "q"), ("(3 + 2*t)*exp(-t)", 2, "q"),    # coefficient of f is exactly -1: mirrors the +1 of the derivative chain
     ("(e/tau)*t*exp(-t/tau)", 2, "q"), ("exp(-t) - exp(-3*t)", 2, "q"), ("t*exp(-2*t)", 2, "q"), ("exp(-t/tau) - exp(-t/tau_s)", 2, "q"),
     ("sin(w*t)", 2, "q"), ("exp(-t)*sin(2*t)", 2, "q"), ("cos(3*t) + sin(3*t)", 2, "q"), ("3*exp(-t) + exp(-2*t)", 2, "q"),
     ("t**2*exp(-t)", 3, "q"), ("exp(-t) + t*exp(-2*t)", 3, "q"), ("1 + t + t**2", 3, "q"), ("exp(-t) + exp(-2*t) + exp(-3*t)", 3, "t"),
